@@ -964,6 +964,25 @@ Proof.
   destruct (step_err r done o); [discriminate|apply IH].
 Qed.
 
+(** every refusal of a coinbase build *)
+Lemma finish_cb_err r hd e : finish_cb r hd = Err e ->
+  check_version r (r_ops r) (fst hd) = Some e \/
+  (check_version r (r_ops r) (fst hd) = None /\
+   ((e = ECoinbaseExpiry /\ snd hd <> r_height r) \/
+    (e = ECoinbase /\ (nonempty (tin_vs (r_ops r)) = true \/ r_height r = 0)) \/
+    e = ESaplingAmount \/ e = EOrchardBuild \/ e = EIronwoodBuild)).
+Proof.
+  unfold finish_cb. intros H.
+  destruct (check_version r (r_ops r) (fst hd)) eqn:C; [inversion H; subst; auto|]. right. split; [reflexivity|].
+  destruct (snd hd =? r_height r) eqn:E; cbn [negb] in H; [|inversion H; left; split; [reflexivity|lia]].
+  destruct (nonempty (tin_vs (r_ops r))) eqn:N; [inversion H; right; left; auto|].
+  destruct (r_height r =? 0) eqn:E0; [inversion H; right; left; split; [reflexivity|right; lia]|].
+  destruct (negb (in_bal (zsum (so_vals (r_ops r))))); [inversion H; auto|].
+  destruct (e_orc (env_of r) && negb _); [inversion H; auto|].
+  destruct (e_iw (env_of r) && negb _); [inversion H; auto 6|].
+  destruct (has_overwinter (fst hd)); discriminate.
+Qed.
+
 (** a refusal with a shortfall / excess names the exact amount *)
 Lemma build_err_amount r e : build r = Err e ->
   (forall a, e = EInsufficient a ->
@@ -977,6 +996,10 @@ Proof.
   2:{ inversion H. subst e0. apply run_ops_err in R. destruct R as (k & o & e' & -> & _).
       split; intros a Ha; discriminate. }
   destruct (run_ops_hdr _ _ R) as (_ & _ & F).
+  destruct (r_coinbase r).
+  { apply finish_cb_err in H. destruct H as [C|(_ & [[-> _]|[[-> _]|[->|[->| ->]]]])];
+      try (split; intros a Ha; discriminate).
+    apply check_version_some in C. destruct C as [[p ->] _]. split; intros a Ha; discriminate. }
   apply finish_err in H.
   destruct H as [[-> _]|(fee & Fe & [C|(C & [[-> _]|(bal & V & Hc)])])].
   - split; intros a Ha; discriminate.
@@ -989,7 +1012,7 @@ Qed.
 
 (** the converse direction: an unbalanced, otherwise acceptable request is refused *)
 Lemma unbalanced_fails r hd fee bal :
-  deferral_refused r = false ->
+  r_coinbase r = false -> deferral_refused r = false ->
   run_ops r [] (r_ops r) (init_hdr r) 0 = Ok hd ->
   fee_required (r_rule r) (req_shape r) = Some fee ->
   check_version r (r_ops r) (fst hd) = None ->
@@ -998,7 +1021,7 @@ Lemma unbalanced_fails r hd fee bal :
   build r = Err (if bal - fee <? - MAX_MONEY then EBalance false
                  else if bal <? fee then EInsufficient (fee - bal) else EChange (bal - fee)).
 Proof.
-  intros DR R Fe C V Hne. unfold build. rewrite DR, R. unfold finish. rewrite Fe, C, V.
+  intros NCB DR R Fe C V Hne. unfold build. rewrite DR, R, NCB. unfold finish. rewrite Fe, C, V.
   destruct (bal - fee <? - MAX_MONEY) eqn:E1; [reflexivity|].
   destruct (bal - fee <? 0) eqn:E2.
   - replace (bal <? fee) with true by lia. reflexivity.
@@ -1013,6 +1036,10 @@ Proof.
   destruct (run_ops r [] (r_ops r) (init_hdr r) 0) as [hd|e0|] eqn:R; [| |discriminate].
   2:{ inversion H. subst e0. apply run_ops_err in R. destruct R as (k & o & e' & E & _). discriminate. }
   destruct (run_ops_hdr _ _ R) as (Hv & _ & _).
+  destruct (r_coinbase r).
+  { apply finish_cb_err in H. destruct H as [C|(_ & [[E _]|[[E _]|[E|[E|E]]]])]; try discriminate.
+    apply check_version_some in C. destruct C as [[q E] Rf]. inversion E. subst v.
+    split; [exact Hv|exact Rf]. }
   apply finish_err in H.
   destruct H as [[E _]|(fee & Fe & [C|(C & [[E _]|(bal & V & Hc)])])]; try discriminate.
   - apply check_version_some in C. destruct C as [[q E] Rf]. inversion E. subst v.
@@ -1027,7 +1054,10 @@ Proof.
   unfold build. intros H.
   destruct (deferral_refused r); [discriminate|].
   destruct (run_ops r [] (r_ops r) (init_hdr r) 0) as [hd|e0|] eqn:R; [| |discriminate].
-  - apply finish_err in H.
+  - destruct (r_coinbase r).
+    { apply finish_cb_err in H. destruct H as [C|(_ & [[E _]|[[E _]|[E|[E|E]]]])]; try discriminate.
+      apply check_version_some in C. destruct C as [[q E] _]. discriminate. }
+    apply finish_err in H.
     destruct H as [[E _]|(fee & Fe & [C|(C & [[E _]|(bal & V & Hc)])])]; try discriminate.
     + apply check_version_some in C. destruct C as [[q E] _]. discriminate.
     + destruct Hc as [[E _]|[[E _]|[[E _]|[[E|E] _]]]]; discriminate.
